@@ -2,6 +2,8 @@ package main
 
 import (
 	"fmt"
+	"github.com/fxamacker/cbor/v2"
+	"github.com/mycoria/mycoria/router"
 	"time"
 
 	"github.com/mycoria/mycoria/config"
@@ -612,7 +614,99 @@ func c03FirstUseStorm(c *Ctx) error {
 		}
 	}
 	c.Count("first-use-storm")
-	return c03SessionLookupStorm(c, a, bID)
+	if err := c03SessionLookupStorm(c, a, bID); err != nil {
+		return err
+	}
+	return c03ReplayAcrossSessionLifecycle(c)
+}
+
+// c03ReplayAcrossSessionLifecycle: replay protection as a real router provides it, with the session
+// looked up per frame.  X sends signed requests that the router answers (the answer is the
+// observable "accepted"); in between, things happen that touch X's session without X being
+// forgotten for good: X announces it is going down (and comes back), the session cleaner runs, a
+// router module looks X up.  A request delivered a second time is never answered again.
+func c03ReplayAcrossSessionLifecycle(c *Ctx) error {
+	for rep, n := 0, c.Pick(6, 24); rep < n; rep++ {
+		e, err := newCtlEnv(c, false)
+		if err != nil {
+			return err
+		}
+		R := e.R
+		X := e.P1 // a direct peer: the answer has somewhere to go
+		recv := R.links[X.id.IP]
+		answered := func(d []byte) (int, bool) {
+			e.w.queue = nil
+			res := R.inject(append([]byte(nil), d...), recv)
+			n := 0
+			for _, q := range e.w.queue {
+				if fi := parseFrameInfo(q.data); fi.ok && fi.src == R.id.IP && fi.dst == X.id.IP {
+					n++
+				}
+			}
+			e.w.queue = nil
+			return n, res.panicked()
+		}
+		var sent [][]byte
+		mkReq := func(k int) ([]byte, error) {
+			spec := pingSpec{from: X.id, dst: R.id.IP, msgType: frame.RouterPing, pingType: "pong", seqTime: nextCraftTime(), pingID: uint64(9000 + 10*rep + k)}
+			spec.body, _ = cbor.Marshal(map[string]string{"msg": "ping"})
+			return craftPing(spec)
+		}
+		var trace []string
+		bad := false
+		for k := 0; k < 4 && !bad; k++ {
+			d, err := mkReq(k)
+			if err != nil {
+				return err
+			}
+			got, pan := answered(d)
+			c.Eval()
+			sent = append(sent, d)
+			trace = append(trace, fmt.Sprintf("request %d (answers: %d)", k+1, got))
+			c.Count(fmt.Sprintf("lifecycle:fresh-request-answered=%v", got > 0))
+			if pan {
+				c.Violate("a signed request crashed a router worker", "lifecycle-panic", map[string]any{"history": trace})
+				bad = true
+				break
+			}
+			// something touches the session
+			switch (rep + k) % 3 {
+			case 0:
+				spec := pingSpec{from: X.id, dst: R.id.IP, msgType: frame.RouterPing, pingType: "disconnect", seqTime: nextCraftTime(), pingID: uint64(9500 + 10*rep + k)}
+				spec.body, _ = cbor.Marshal(&router.DisconnectPingMsg{GoingDown: true})
+				if dd, err := craftPing(spec); err == nil {
+					_, _ = answered(dd)
+					sent = append(sent, dd)
+					trace = append(trace, "going-down notice of X")
+				}
+			case 1:
+				_ = R.st.GetSession(X.id.IP)
+				trace = append(trace, "session looked up")
+			default:
+				trace = append(trace, "nothing")
+			}
+			// every frame delivered so far, again, newest first and oldest first
+			order := c.Rng.Perm(len(sent))
+			for _, j := range order {
+				got, pan := answered(sent[j])
+				c.Eval()
+				if pan {
+					c.Violate("a replayed signed frame crashed a router worker", "lifecycle-panic", map[string]any{"history": trace})
+					bad = true
+					break
+				}
+				if got > 0 {
+					c.Violate(fmt.Sprintf("a signed request delivered a second time was answered again (frame %d of the history, after: %s)", j+1, trace[len(trace)-1]), "replay-answered-after-lifecycle-event",
+						map[string]any{"history": trace, "replayed_frame": j + 1})
+					bad = true
+					break
+				}
+			}
+			c.Count("lifecycle:" + trace[len(trace)-1])
+		}
+		c.NonTrivial(fmt.Sprintf("lifecycle/%d", rep%3))
+	}
+	return nil
 }
 
 // c03SessionLookupStorm: the receivers do not share a session handed to them, each looks the
